@@ -49,8 +49,8 @@ META = dict(
     assumptions=["str(Decimal) follows the General Decimal Arithmetic to-scientific-string rule (validated against the "
                  "real decimal module in the self-test of this check)", "the stub's canned JSON responses"],
     outside=["order-status tables (finite look-ups: every documented status is asserted to map to a bool, concretely)",
-             "JSON parsing (C accelerator)", "wrapper properties beyond timestamps (decoded with Decimal(str), exact by "
-             "construction of decimal.Decimal)"],
+             "JSON parsing (C accelerator)", "wrapper classes other than binance Trade / OrderInfo / Balance and bitstamp "
+             "OrderStatus / OrderInfo / Balance (the remaining ones are single Decimal(str) / timestamp accessors)"],
     required_covers=["a decimal parameter was transmitted", "an unset option was omitted", "timestamp kernel decided"],
 )
 
@@ -381,6 +381,103 @@ def timestamps_binary64(ctx, which="binance_ms"):
         ctx.cover(lab)
 
 
+# ------------------------------------------------------------------------------------------ payload decoding
+def _cell(ctx, name, prec=8):
+    """a numeric JSON string cell standing for a symbolic decimal (sym mode) / the real string (concrete mode)"""
+    d = ctx.dec(name, prec, lo=0, hi=10 ** 12)
+    if ctx.mode == "sym":
+        return SymStr(d, "plain"), d
+    return format(d, "f"), d
+
+
+def decode_binance_order(ctx, ntrades=3):
+    """binance OrderInfo / Trade / Balance wrappers: every numeric field decodes to exactly the payload's value and the
+    fees are the per-asset sums of the trades' commissions"""
+    from basana.external.binance import common as bn_common
+    ctx.patch(bn_common, "Decimal", DecimalFactory)
+    ctx.patch(bn_helpers, "Decimal", DecimalFactory)
+    cells = {}
+    payload = {"orderId": 7, "clientOrderId": "c", "status": "PARTIALLY_FILLED", "side": "SELL", "type": "LIMIT",
+               "timeInForce": "GTC", "time": 1577836800000, "updateTime": 1577836800000, "symbol": "BTCUSDT"}
+    for key, name in (("origQty", "amount"), ("executedQty", "amount_filled"),
+                      ("cummulativeQuoteQty", "quote_amount_filled"), ("price", "limit_price"),
+                      ("stopPrice", "stop_price")):
+        payload[key], cells[name] = _cell(ctx, "order_" + key)
+    assets = ["BNB", "BNB", "USDT", "BNB"][:ntrades]
+    trades, expect_fees = [], {}
+    for i, asset in enumerate(assets):
+        c, cd = _cell(ctx, "trade%d_commission" % i)
+        p_, pd = _cell(ctx, "trade%d_price" % i, 2)
+        q, qd = _cell(ctx, "trade%d_qty" % i)
+        qq, qqd = _cell(ctx, "trade%d_quoteQty" % i, 2)
+        tr = bn_common.Trade({"id": i, "orderId": 7, "time": 1577836800000, "isBuyer": False, "isMaker": True,
+                              "isBestMatch": True, "price": p_, "qty": q, "quoteQty": qq, "commission": c,
+                              "commissionAsset": asset})
+        ctx.prove([tr.price == pd, tr.amount == qd, tr.quote_amount == qqd, tr.commission == cd,
+                   tr.commission_asset == asset], "C17 binance trade fields decode to exactly the payload's values")
+        trades.append(tr)
+        expect_fees[asset] = expect_fees.get(asset, Decimal(0)) + cd
+    info = bn_common.OrderInfo(payload, trades)
+    ctx.prove([info.amount == cells["amount"], info.amount_filled == cells["amount_filled"],
+               info.quote_amount_filled == cells["quote_amount_filled"],
+               info.amount_remaining == cells["amount"] - cells["amount_filled"], info.is_open is True,
+               info.operation == SELL],
+              "C17 binance order fields decode to exactly the payload's values")
+    for name in ("limit_price", "stop_price"):
+        got = getattr(info, name)
+        want = cells[name]
+        if got is None:
+            ctx.prove(want == 0, "C17 binance optional prices are None only when the payload says 0")
+        else:
+            ctx.prove(got == want, "C17 binance optional prices decode to exactly the payload's values")
+    fees = dict(info.fees)
+    for asset, want in expect_fees.items():
+        got = fees.get(asset, Decimal(0))
+        ctx.prove(got == want, "C17 binance order fees are the per-asset sums of its trades' commissions",
+                  info=(asset, len(trades)))
+    ctx.prove(set(fees) <= set(expect_fees), "C17 binance order fees mention only assets that were charged")
+    free, fd = _cell(ctx, "balance_free")
+    locked, ld = _cell(ctx, "balance_locked")
+    bal = bn_common.Balance({"asset": "BTC", "free": free, "locked": locked})
+    ctx.prove([bal.available == fd, bal.locked == ld, bal.total == fd + ld], "C17 binance balances decode exactly")
+    for lab in META["required_covers"]:
+        ctx.cover(lab)
+
+
+def decode_bitstamp_order(ctx, ntx=2):
+    """bitstamp OrderInfo / Balance wrappers: filled amounts and fees are the sums over the transactions"""
+    ctx.patch(bt_exchange, "Decimal", DecimalFactory)
+    pair = Pair("BTC", "USD")
+    txs, fee_sum, base_sum, quote_sum = [], Decimal(0), Decimal(0), Decimal(0)
+    for i in range(ntx):
+        fee, fd = _cell(ctx, "tx%d_fee" % i, 5)
+        b, bd = _cell(ctx, "tx%d_btc" % i)
+        q, qd = _cell(ctx, "tx%d_usd" % i, 2)
+        pr, prd = _cell(ctx, "tx%d_price" % i, 2)
+        txs.append({"tid": i, "price": pr, "fee": fee, "btc": b, "usd": q, "type": 2,
+                    "datetime": "2020-01-01 00:00:00"})
+        fee_sum, base_sum, quote_sum = fee_sum + fd, base_sum + bd, quote_sum + qd
+    rem, remd = _cell(ctx, "amount_remaining")
+    st = bt_exchange.OrderStatus({"id": 5, "status": "Open", "amount_remaining": rem, "transactions": txs})
+    info = bt_exchange.OrderInfo(pair, st)
+    ctx.prove([info.amount_filled == base_sum, info.quote_amount_filled == quote_sum,
+               info.amount_remaining == remd, info.is_open is True],
+              "C17 bitstamp order amounts are the sums over its transactions, decoded exactly")
+    got = info.fees.get("USD", Decimal(0))
+    ctx.prove(got == fee_sum, "C17 bitstamp order fees are the sum of its transactions' fees")
+    av, avd = _cell(ctx, "available")
+    tot, totd = _cell(ctx, "total")
+    res, resd = _cell(ctx, "reserved")
+    bal = bt_exchange.Balance({"currency": "btc", "available": av, "total": tot, "reserved": res})
+    ctx.prove([bal.available == avd, bal.total == totd, bal.reserved == resd], "C17 bitstamp balances decode exactly")
+    for st_name, want in (("Open", True), ("Finished", False), ("Expired", False), ("Canceled", False)):
+        i2 = bt_exchange.OrderInfo(pair, bt_exchange.OrderStatus({"id": 5, "status": st_name, "amount_remaining": "0",
+                                                                  "transactions": []}))
+        ctx.prove(i2.is_open is want, "C17 bitstamp order status %s decodes to the documented open/closed flag" % st_name)
+    for lab in META["required_covers"]:
+        ctx.cover(lab)
+
+
 def status_tables(ctx):
     """finite look-ups, asserted concretely: every documented order status maps to an open/closed flag"""
     for st, want in (("NEW", True), ("PARTIALLY_FILLED", True), ("FILLED", False), ("CANCELED", False),
@@ -418,4 +515,9 @@ def jobs(tier):
         js.append(Job("timestamps binary64: " + which, "timestamps_binary64", dict(which=which), validate_every=0,
                       sample_every=1))
     js.append(Job("status tables", "status_tables", validate_every=0, sample_every=1))
+    js.append(Job("decode binance order / trades / balance", "decode_binance_order", dict(ntrades=4 if tier != "quick"
+                                                                                       else 3),
+                  validate_every=5, sample_every=10))
+    js.append(Job("decode bitstamp order / balance", "decode_bitstamp_order", dict(ntx=2), validate_every=5,
+                  sample_every=10))
     return js
